@@ -148,6 +148,11 @@ def handle (st : St) (line : String) : St × String :=
           | .ok v => pure (st, "ok " ++ showValue v)
           | .error .mapKey => pure (st, "err map-key")
           | .error .unsupportedType => pure (st, "err unsupported")
+        | "rename" => do
+          -- `renameMapKeys` of Document.Unmarshal: the document's keys renamed along the target struct type
+          let d ← parseDoc (← j.getObjVal? "doc")
+          let t ← parseRType (← j.getObjVal? "rtype")
+          pure (st, showDoc (renameMapKeys t d))
         | "rempty" => do
           let r ← parseRange (← j.getObjVal? "r")
           pure (st, if r.isEmpty then "1" else "0")
